@@ -132,6 +132,8 @@ func (x *Exec) intercept(st *State, fn *ssa.Function, args []*Term) ([]Outcome, 
 		return abortOut(st, "Len of %s", v.Sort.Name), true
 	case "Unchanged":
 		return ret(x.unchanged(st))
+	case "JSONFaithful":
+		return ret(x.jsonOK(args[0]))
 	}
 	if outs, ok := x.interceptIter(st, o.Name(), args); ok {
 		return outs, true
@@ -473,6 +475,10 @@ func (x *Exec) trusted(st *State, fn *ssa.Function, name string, args []*Term) (
 	switch {
 	case name == "sort.Sort" || name == "sort.Stable":
 		return x.trustedSort(st, fn, args), true
+	case name == "encoding/json.Marshal":
+		return x.jsonMarshal(st, fn, args), true
+	case name == "encoding/json.Unmarshal":
+		return x.jsonUnmarshal(st, fn, args), true
 	case name == "runtime/debug.Stack":
 		x.noteTrusted("runtime/debug.Stack: returns some byte slice, no other effect")
 		v := c.Fresh("stack", c.Slice)
@@ -638,6 +644,99 @@ func (x *Exec) trustedSort(st *State, fn *ssa.Function, args []*Term) []Outcome 
 			x.assumeFact(s2, c.Forall([]*Term{a, b}, c.Implies(guard, c.And(ldef, c.Not(lv)))))
 		}
 		res = append(res, Outcome{st: s2, kind: ORet, val: c.Ctor(c.Unit)})
+	}
+	return res
+}
+
+type jsonRec struct {
+	v   *Term
+	arr *Term
+	ln  *Term
+}
+
+func (x *Exec) jsonOK(v *Term) *Term {
+	if v.Op == "box" {
+		return x.c.App("json_ok_"+sanitize(v.Args[0].Sort.Name), x.c.Bool, v.Args[0])
+	}
+	return x.c.App("json_ok_any", x.c.Bool, v)
+}
+
+// Trusted contract of encoding/json (assumption A5, J1-J3):
+//   Marshal(v) for JSONFaithful(v): no error, non-empty output whose first byte is not 'n';
+//   Unmarshal(Marshal(v), &t) for such v: no error and t = v;
+//   Unmarshal with an error may leave anything in its target; it never panics for a non-nil pointer target.
+func (x *Exec) jsonMarshal(st *State, fn *ssa.Function, args []*Term) []Outcome {
+	c := x.c
+	x.noteTrusted("encoding/json: Marshal of a faithful non-null value succeeds with output not starting with 'n'; Unmarshal(Marshal(v)) = v; a failing Unmarshal may clobber only its target")
+	v := args[0]
+	b8 := c.BV(8)
+	key := "any"
+	inner := v
+	if v.Op == "box" {
+		inner = v.Args[0]
+		key = sanitize(inner.Sort.Name)
+	}
+	arr := c.App("json_enc_"+key, c.ArraySort(c.Int, b8), inner)
+	ln := c.App("json_enclen_"+key, c.Int, inner)
+	errv := c.App("json_encerr_"+key, c.Iface, inner)
+	ok := x.jsonOK(v)
+	x.assumeFact(st, c.And(c.Cmp("<=", c.IntLit(0), ln),
+		c.Implies(ok, c.And(c.Eq(errv, c.NilIface()), c.Cmp("<", c.IntLit(0), ln), c.Not(c.Eq(c.Select(arr, c.IntLit(0)), c.BVLit('n', 8)))))))
+	cell := x.newCell(st, arr, nil)
+	x.jsonMarshals = append(x.jsonMarshals, jsonRec{v: v, arr: arr, ln: ln})
+	sl := c.Ctor(c.Slice, cell, c.IntLit(0), ln, ln)
+	ts := c.tupleSort(fn.Signature.Results())
+	return []Outcome{{st: st, kind: ORet, val: c.Ctor(ts, sl, errv)}}
+}
+
+func (x *Exec) jsonUnmarshal(st *State, fn *ssa.Function, args []*Term) []Outcome {
+	c := x.c
+	b, target := args[0], args[1]
+	if target.Op != "box" {
+		return abortOut(st, "json.Unmarshal into a non-pointer or unknown target")
+	}
+	pt, ok := c.boxTypes[target.Name].(*types.Pointer)
+	if !ok {
+		return abortOut(st, "json.Unmarshal target is not a pointer")
+	}
+	p := target.Args[0]
+	ts := c.SortOf(pt.Elem())
+	b8 := c.BV(8)
+	arr := x.loadArr(st, c.Sel(b, 0), b8)
+	off, ln := c.Sel(b, 1), c.Sel(b, 2)
+	key := sanitize(ts.Name)
+	dec := c.App("json_dec_"+key, ts, arr, off, ln)
+	errv := c.App("json_decerr_"+key, c.Iface, arr, off, ln)
+	x.assumeFact(st, x.resultInv(pt.Elem(), dec))
+	for _, m := range x.jsonMarshals {
+		if m.v.Op == "box" && m.v.Args[0].Sort == ts {
+			same := c.And(c.Eq(arr, m.arr), c.Eq(off, c.IntLit(0)), c.Eq(ln, m.ln), x.jsonOK(m.v))
+			x.assumeFact(st, c.Implies(same, c.And(c.Eq(errv, c.NilIface()), c.Eq(dec, m.v.Args[0]))))
+		}
+	}
+	var res []Outcome
+	if nc := x.simp(st, x.isNilRef(p)); !nc.IsFalse() {
+		ns, okS := x.fork(st, nc)
+		if ns != nil {
+			e := c.Fresh("jsonerr", c.Iface)
+			x.assumeFact(ns, c.Not(c.Eq(e, c.NilIface())))
+			res = append(res, Outcome{st: ns, kind: ORet, val: e})
+		}
+		if okS == nil {
+			return res
+		}
+		st = okS
+	}
+	good, bad := x.fork(st, c.Eq(errv, c.NilIface()))
+	if good != nil {
+		x.store(good, p, dec, 0, "encoding/json.Unmarshal")
+		res = append(res, Outcome{st: good, kind: ORet, val: c.NilIface()})
+	}
+	if bad != nil {
+		junk := c.Fresh("jsonjunk", ts)
+		x.assumeFact(bad, x.resultInv(pt.Elem(), junk))
+		x.store(bad, p, junk, 0, "encoding/json.Unmarshal")
+		res = append(res, Outcome{st: bad, kind: ORet, val: errv})
 	}
 	return res
 }
